@@ -26,10 +26,11 @@ theorem proj_push (b : Nat) (s : St) (e : Entry) :
   simp only [proj, push_log, List.filterMap_append, List.filterMap_cons, List.filterMap_nil]
   cases syncKind b e <;> simp
 
-/-! ### frame: a block whose step is in progress is not touched by anybody else -/
+/-! ### frame: a block whose step is in progress (-1, -2), or whose steps are completed (2), is not touched
+by anybody else: `init_sblock` acts on `init_steps_completed` 0 and 1 only -/
 
 def Keep (b : Nat) (s t : St) : Prop :=
-  s.steps b < 0 → t.steps b = s.steps b ∧ proj b t.log = proj b s.log
+  (s.steps b ≠ 0 ∧ s.steps b ≠ 1) → t.steps b = s.steps b ∧ proj b t.log = proj b s.log
 
 theorem Keep.rfl' (b : Nat) (s : St) : Keep b s s := fun _ => ⟨rfl, rfl⟩
 
@@ -160,8 +161,8 @@ theorem initBody_frame (c : Cfg) (rec : Call → St → St) (hr : FrameSpec rec)
     intro hneg
     have e : initBody c rec x full s = s := by
       unfold initBody
-      have h0 : ¬ s.steps x = 0 := by omega
-      have h1 : ¬ s.steps x = 1 := by omega
+      have h0 : ¬ s.steps x = 0 := hneg.1
+      have h1 : ¬ s.steps x = 1 := hneg.2
       simp [h0, h1]
     rw [e]; exact ⟨rfl, rfl⟩
   · unfold initBody
@@ -191,7 +192,7 @@ theorem exec_frame (c : Cfg) : ∀ fuel, FrameSpec (exec c fuel)
     intro call s b
     simp only [exec]
     split
-    · exact Keep.of_eq rfl rfl
+    · exact (Keep.push s .fuelOut rfl).trans (Keep.of_eq rfl rfl)
     · exact Keep.rfl' b s
   | fuel + 1 => body_frame c (exec c fuel) (exec_frame c fuel)
 
@@ -399,7 +400,7 @@ theorem exec_J (c : Cfg) : ∀ fuel, ShapeSpec (exec c fuel)
     intro call s h
     simp only [exec]
     split
-    · exact h.of_eq rfl rfl
+    · exact (h.push_none .fuelOut (fun _ => rfl)).of_eq rfl rfl
     · exact h
   | fuel + 1 => body_J c (exec c fuel) (exec_J c fuel) (exec_frame c fuel)
 
@@ -610,7 +611,7 @@ theorem exec_Rf (c : Cfg) : ∀ fuel, RfSpec (exec c fuel)
     intro call s h
     simp only [exec]
     split
-    · exact h.mono rfl id
+    · exact (h.push .fuelOut (fun _ => by simp)).mono rfl id
     · exact h
   | fuel + 1 => body_Rf c (exec c fuel) (exec_Rf c fuel)
 
